@@ -93,10 +93,13 @@ type world struct {
 	// failNextWrite makes the handler's next write of the generated Go file fail; writeFailed
 	// says that it did
 	failNextWrite, writeFailed bool
-	held                       []int // variants the text file has held since c was built
-	lastEdit                   time.Time
-	pending                    bool // the file was edited after the handler last looked
-	trace                      []string
+	// failNextText makes the handler's next write of the development-mode text file fail (disk full:
+	// the file keeps what it held)
+	failNextText bool
+	held         []int // variants the text file has held since c was built
+	lastEdit     time.Time
+	pending      bool // the file was edited after the handler last looked
+	trace        []string
 	// the simulated source file: it lives at the compiled variant's compile-time path and
 	// exists only in this run's model (simos overlay), so parallel worker processes do not collide
 	filePath    string
@@ -479,9 +482,11 @@ func (w *world) run() {
 			w.writeFailed = false
 			if w.fileVar >= 0 && t.Chance(1, 10, "write-of-generated-file-fails") {
 				w.failNextWrite = true
+			} else if w.fileVar >= 0 && t.Chance(1, 10, "write-of-text-file-fails") {
+				w.failNextText = true
 			}
 			r, err := w.watch()
-			w.failNextWrite = false
+			w.failNextWrite, w.failNextText = false, false
 			w.note("watch: GoUpdated=%v TextUpdated=%v err=%v", r.GoUpdated, r.TextUpdated, err != nil)
 			if err != nil && w.writeFailed {
 				// the save has not been dealt with; the user sees the error and saves the file again
@@ -732,7 +737,15 @@ func simWorld(rc *kernel.RunCtx) {
 	}
 	w := &world{rc: rc, k: k, t: t, fam: families[t.Choose(len(families), "family")], midAt: -1, readVar: -2, renderMid: -1}
 	esc := kernel.Bubble(rc.TB, func() {
-		simos.SetHook(&simos.HookT{Now: time.Now, Before: func(op, path string) simos.Fault { w.onOSCall(op, path); return simos.Fault{} }, Overlay: func(p string) ([]byte, time.Time, bool) {
+		simos.SetHook(&simos.HookT{Now: time.Now, Before: func(op, path string) simos.Fault {
+			w.onOSCall(op, path)
+			if op == "WriteFile" && w.failNextText && strings.HasSuffix(path, ".txt") {
+				w.failNextText, w.writeFailed = false, true
+				w.k.Count("fault_write_of_text_file_failed", 1)
+				return simos.Fault{Kind: "enospc"}
+			}
+			return simos.Fault{}
+		}, Overlay: func(p string) ([]byte, time.Time, bool) {
 			if p == w.filePath {
 				return w.fileContent, w.fileMTime, true
 			}
